@@ -259,6 +259,26 @@ def _descent_history_filter(en: FuncInfo, arg: ast.AST, call: ast.Call) -> Tuple
     return ("other", False, f"descent argument '{stmt_text(arg)}' has an unrecognised shape; cannot show history children are excluded")
 
 
+def _index_kind(en: FuncInfo, e: ast.AST, path_param: str) -> str:
+    """What the members of an index built from the entry path are: 'node-ids' ({s.id for s in path}),
+    'parent-ids' ({s.parent.id: s ...} / {s.parent.id for s in path}), 'nodes', or '?'."""
+    exprs = [e]
+    if isinstance(e, ast.Name):
+        exprs = [a.value for a in assignments_to(en, e.id) if getattr(a, "value", None) is not None]
+    for x in exprs:
+        if isinstance(x, (ast.SetComp, ast.DictComp, ast.ListComp, ast.GeneratorExp)) and x.generators and path_param in norm(x.generators[0].iter):
+            var = norm(x.generators[0].target)
+            key = x.key if isinstance(x, ast.DictComp) else x.elt
+            t = norm(key)
+            if t == f"{var}.id":
+                return "node-ids"
+            if t == f"{var}.parent.id":
+                return "parent-ids"
+            if t == var:
+                return "nodes"
+    return "?"
+
+
 def explicit_child_skip(ctx, rid: str) -> None:
     """R3: the default 'initial' descent is dominated by the negated explicit-child
     test; the region list excludes ids named by the path."""
@@ -266,6 +286,29 @@ def explicit_child_skip(ctx, rid: str) -> None:
     for v in VIEWS:
         en = roles(ctx, v).enter
         param0 = en.params[1]
+        # the index a membership test consults must hold what the test asks about: "is this child on the path" needs the ids
+        # of the path's nodes, "does this state have a child on the path" the ids of the path nodes' parents
+        for x in own_nodes(en.node):
+            cp = compare_parts(x) if isinstance(x, ast.Compare) else None
+            if not cp or not isinstance(cp[1], (ast.In, ast.NotIn)) or not derives_from(en, cp[2], {param0}):
+                continue
+            kind = _index_kind(en, cp[2], param0)
+            item = norm(cp[0])
+            if kind == "?" or not item.endswith(".id"):
+                continue
+            iv = item[:-3]
+            over_children = any(isinstance(g_, ast.comprehension) and norm(g_.target) == iv and ".states" in norm(g_.iter) for g_ in ast.walk(en.node) if isinstance(g_, ast.comprehension)) or \
+                any(isinstance(l, ast.For) and norm(l.target) == iv and ".states" in norm(l.iter) for l in own_nodes(en.node))
+            over_path = any(isinstance(l, ast.For) and norm(l.target) == iv and norm(l.iter) == param0 for l in own_nodes(en.node))
+            want = "node-ids" if over_children else ("parent-ids" if over_path else None)
+            if want is None:
+                continue
+            c.ob(rid, kind == want, en, f"explicit-index-kind:{item} in {norm(cp[2])[:24]}",
+                 f"'{item}' is looked up in an index of {kind}" if kind == want else
+                 f"'{norm(x)}' looks a {'child' if over_children else 'state being entered'} up in an index whose members are {kind} (it needs {want}): "
+                 + ("a region that is itself the last element of the entry path is not recognised as explicit, is entered by the default descent and then "
+                    "entered again from the path (entry actions twice, no exit)" if over_children else
+                    "the default initial child is entered next to the child named by the path"), x)
         calls = self_calls_in(en, "_enter_states")
         for call in calls:
             arg = call.args[0] if call.args else None
